@@ -156,7 +156,7 @@ impl ExtraAccountMetaList {
         data: &mut [u8],
         extra_account_metas: &[ExtraAccountMeta],
     ) -> Result<(), ProgramError> {
-        let mut state = TlvStateMut::unpack(data).unwrap();
+        let mut state = TlvStateMut::unpack(data)?;
         let tlv_size = ListView::<ExtraAccountMeta>::size_of(extra_account_metas.len())?;
         let (bytes, _) = state.alloc::<T>(tlv_size, false)?;
         let mut validation_data = ListView::<ExtraAccountMeta>::init(bytes)?;
@@ -172,7 +172,7 @@ impl ExtraAccountMetaList {
         data: &mut [u8],
         extra_account_metas: &[ExtraAccountMeta],
     ) -> Result<(), ProgramError> {
-        let mut state = TlvStateMut::unpack(data).unwrap();
+        let mut state = TlvStateMut::unpack(data)?;
         let tlv_size = ListView::<ExtraAccountMeta>::size_of(extra_account_metas.len())?;
         let bytes = state.realloc_first::<T>(tlv_size)?;
         let mut validation_data = ListView::<ExtraAccountMeta>::init(bytes)?;
@@ -212,7 +212,7 @@ impl ExtraAccountMetaList {
         program_id: &Pubkey,
         data: &[u8],
     ) -> Result<(), ProgramError> {
-        let state = TlvStateBorrowed::unpack(data).unwrap();
+        let state = TlvStateBorrowed::unpack(data)?;
         let extra_meta_list = ExtraAccountMetaList::unpack_with_tlv_state::<T>(&state)?;
 
         let initial_accounts_len = account_infos.len() - extra_meta_list.len();
